@@ -125,6 +125,10 @@ type Task struct {
 	Waits     int // times the task joined a wait set (mutex, cond, waitgroup)
 	Gosched   int // Gosched calls
 	StallAt   int // freeze when Steps reaches this value (0 = never)
+	// StallResume: the freeze ends when nothing else can make progress (every
+	// other task is done, blocked or spinning): "faults stop", then every call
+	// must still return.
+	StallResume bool
 	DelayAt   int // drop priority at this step (PCT change point / delay fault)
 	prio      int
 	PanicVal  interface{}
@@ -198,6 +202,7 @@ type Sim struct {
 	TicksDrop   uint64
 	AutoAdv     uint64
 	StallsFired uint64
+	StallsResumed uint64
 	DelaysFired uint64
 	NowCalls    uint64
 
@@ -561,7 +566,7 @@ func (s *Sim) step(kind OpKind, addr uintptr, gosched bool) {
 		}
 		t.goschedSeq = s.Seq
 		t.yielding = true
-		if t.spinCount >= s.cfg.SpinLimit && s.allSpinning() {
+		if t.spinCount >= s.cfg.SpinLimit && s.allSpinning() && s.resumeStalled() == nil {
 			s.endRun(OutLivelock, s.describe("livelock: every runnable task spins without any write"))
 			s.parkForever(t)
 			return
@@ -688,9 +693,40 @@ func (s *Sim) noRunnable(cont *Task) {
 			return
 		}
 	}
+	if t := s.resumeStalled(); t != nil {
+		if t == cont {
+			return
+		}
+		s.cur = t
+		s.Switches++
+		parkSend(t.wake)
+		if cont != nil {
+			parkRecv(cont.wake)
+			if s.killed {
+				goruntime.Goexit()
+			}
+		}
+		return
+	}
 	s.outcome = OutDeadlock
 	s.Explain = s.describe("deadlock: unfinished tasks and nothing runnable")
 	s.finishRun(cont)
+}
+
+// resumeStalled ends the freeze of one resumable stalled task.
+//
+//go:norace
+func (s *Sim) resumeStalled() *Task {
+	for _, t := range s.tasks {
+		if t.state == stStalled && t.StallResume {
+			t.state = stRunnable
+			t.StallAt = 0
+			s.StallsResumed++
+			s.Decisions = append(s.Decisions, uint16(t.ID)|0x4000)
+			return t
+		}
+	}
+	return nil
 }
 
 //go:norace
@@ -730,7 +766,7 @@ func (s *Sim) foregroundDone() bool {
 			}
 			continue
 		}
-		if t.state == stStalled {
+		if t.state == stStalled && !t.StallResume {
 			continue // a stalled victim never finishes; the run ends without it
 		}
 		if t.Optional && t.state == stBlocked {
@@ -844,8 +880,8 @@ func (s *Sim) replayPick(c []*Task, self *Task) *Task {
 	for s.replayAt < len(s.cfg.Replay) {
 		d := s.cfg.Replay[s.replayAt]
 		s.replayAt++
-		if d&0x8000 != 0 {
-			continue // stall marker
+		if d&0xC000 != 0 {
+			continue // stall / resume marker
 		}
 		for _, t := range c {
 			if t.ID == int(d) {
